@@ -134,6 +134,14 @@ pub struct SimB {
     /// The server view of the last successful update that was not a 304 and
     /// whether that exchange was free of injected faults.
     last_ok_view: Option<(RrdpSrv, bool)>,
+    /// The deltas (serial -> hash text) listed in the notification of the
+    /// last successful update that was not a 304: what the client remembers.
+    last_ok_listing: BTreeMap<u64, String>,
+    /// The deltas listed in the notification served in the current exchange.
+    listing_now: BTreeMap<u64, String>,
+    /// The deltas recorded in the client's archive state before the current
+    /// exchange.
+    stored_listing: BTreeMap<u64, String>,
     next_hist_id: u64,
     pub kill: Option<Arc<KillCtl>>,
     stats: Stats,
@@ -208,6 +216,8 @@ impl SimB {
             ca: make_ca(&notify_uri()),
             srv, srv_history: Vec::new(), http, last_ok: None,
             last_ok_objects: BTreeMap::new(), last_ok_view: None,
+            last_ok_listing: BTreeMap::new(), listing_now: BTreeMap::new(),
+            stored_listing: BTreeMap::new(),
             next_hist_id: 0, kill,
             stats: Stats::default(), log: Vec::new(), ops: Vec::new(),
             violations: Vec::new(), property, next_content: 0,
@@ -578,6 +588,24 @@ impl SimB {
         routes: BTreeMap<String, Route>,
     ) -> Option<bool> {
         let state = self.srv_history[view].clone();
+        self.listing_now = routes.get(&state.notify_uri()).map(|route| {
+            parse_delta_listing(&route.body)
+        }).unwrap_or_default();
+        // What the client remembers of earlier notifications is what its
+        // archive state says.
+        self.stored_listing = RrdpArchive::open(Arc::new(self.archive_path()))
+            .ok().and_then(|archive| archive.load_state().ok())
+            .map(|st| st.delta_state.iter().map(|(serial, hash)| {
+                (*serial, hash.to_string().to_ascii_lowercase())
+            }).collect()).unwrap_or_default();
+        if std::env::var_os("VERIF_DEBUG_STATE").is_some() {
+            self.log.push(format!(
+                "step {step}: deltas remembered by the client: {:?}",
+                self.stored_listing.iter().map(|(s, h)| {
+                    format!("{s}:{}", &h[..8.min(h.len())])
+                }).collect::<Vec<_>>()
+            ));
+        }
         self.http.set_routes(routes);
         let _ = self.http.take_log();
         let _ = restart;
@@ -725,6 +753,11 @@ impl SimB {
                     self.stats.probe("undetectable-history-rewrite");
                 }
                 else if !truths.iter().any(|truth| *truth == objects) {
+                    self.log.push(format!(
+                        "step {step}: listed now {:?}; remembered {:?}",
+                        self.listing_now.iter().map(|(s, h)| format!("{s}:{}", &h[..8.min(h.len())])).collect::<Vec<_>>(),
+                        self.last_ok_listing.iter().map(|(s, h)| format!("{s}:{}", &h[..8.min(h.len())])).collect::<Vec<_>>(),
+                    ));
                     let truth = &truths[0];
                     let missing: Vec<&String> = truth.keys().filter(
                         |k| !objects.contains_key(*k)).collect();
@@ -748,6 +781,7 @@ impl SimB {
                     self.last_ok_view = Some((
                         state.clone(), matches!(fault, Fault::None)
                     ));
+                    self.last_ok_listing = self.listing_now.clone();
                 }
                 self.log.push(format!(
                     "step {step}: view {}#{} fault {fault:?} -> updated to \
@@ -790,17 +824,14 @@ impl SimB {
         if on_lineage {
             return false
         }
-        let obliged = match self.last_ok_view.as_ref() {
-            Some((prev, true)) => prev.deltas.iter().any(|(s, changes)| {
-                state.deltas.iter().any(|(s2, changes2)| {
-                    s2 == s && changes2 != changes
-                })
-            }),
-            // The client's memory of listed deltas is unknown: be strict
-            // only if nothing could have been remembered wrongly.
-            Some((_, false)) => false,
-            None => false,
-        };
+        // What the client was shown: a delta listed now under a serial that
+        // its stored state remembers with another hash must make it notice.
+        let obliged = self.listing_now.iter().any(|(serial, hash)| {
+            matches!(
+                self.stored_listing.get(serial),
+                Some(old) if *old != hash.to_ascii_lowercase()
+            )
+        });
         !obliged
     }
 
@@ -1061,6 +1092,30 @@ pub fn run_c24(
     seed: u64, thorough: bool, mask: &BTreeSet<(usize, usize)>, scratch: &Path,
 ) -> RunResult {
     SimB::new(seed, "C24", scratch, true).run_crash(mask, thorough)
+}
+
+
+/// The deltas a notification file lists: serial -> hash (as text).
+fn parse_delta_listing(body: &[u8]) -> BTreeMap<u64, String> {
+    let text = String::from_utf8_lossy(body);
+    let mut res = BTreeMap::new();
+    for part in text.split("<delta ").skip(1) {
+        let attr = |name: &str| -> Option<&str> {
+            let start = part.find(&format!("{name}=\""))? + name.len() + 2;
+            let len = part[start..].find('"')?;
+            Some(&part[start..start + len])
+        };
+        if let (Some(serial), Some(hash)) = (attr("serial"), attr("hash")) {
+            if let Ok(serial) = serial.parse::<u64>() {
+                // A serial listed twice with different hashes: keep both
+                // apart so that a comparison never matches by accident.
+                res.entry(serial).and_modify(|old: &mut String| {
+                    if old != hash { old.push_str("|"); old.push_str(hash); }
+                }).or_insert_with(|| hash.to_string());
+            }
+        }
+    }
+    res
 }
 
 
